@@ -31,6 +31,8 @@ type FrameDesc struct {
 	RawSize int64 `json:"raw_size,omitempty"`
 	InflOK  bool  `json:"infl_ok,omitempty"`
 	InflN   int64 `json:"infl_n,omitempty"`
+	// InflTrailing: number of bytes in zlib_data after the end of the zlib stream
+	InflTrailing int64 `json:"infl_trailing,omitempty"`
 
 	// payload oracle (from the description the writer was given, never from the decoder)
 	PayHeader bool     `json:"pay_header,omitempty"` // the payload is a HeaderBlock
@@ -180,9 +182,11 @@ func Describe(d *pbfgen.FileDesc, data []byte, frames []pbfgen.Frame, skip [3]bo
 				fd.Enc = 0
 			case hasZ:
 				fd.Enc = 1
-				if r, err := zlib.NewReader(bytes.NewReader(z)); err == nil {
+				br := bytes.NewReader(z)
+				if r, err := zlib.NewReader(br); err == nil {
 					if p, err := io.ReadAll(r); err == nil {
 						fd.InflOK, fd.InflN = true, int64(len(p))
+						fd.InflTrailing = int64(br.Len())
 					}
 				}
 			}
@@ -228,7 +232,9 @@ func EmitFrames(c *wire.Case, fds []FrameDesc) {
 			c.Int(0)
 		case 1:
 			c.Int(1).Int(f.RawSize)
-			if f.InflOK {
+			if f.InflOK && f.InflTrailing > 0 {
+				c.Int(2).Int(f.InflN)
+			} else if f.InflOK {
 				c.Int(1).Int(f.InflN)
 			} else {
 				c.Int(0)
